@@ -266,8 +266,8 @@ def expr_key(fn, o, depth=0, copyprop=False):
         return ("arg", o["i"])
     if k == "global":
         return ("g", o["name"], o.get("off", 0))
-    if k != "inst" or depth > 10:
-        return ("?", id(o))
+    if k != "inst" or depth > 24:
+        return ("?", o.get("id", o.get("k")))
     i = fn.insts[o["id"]]
     if i.op in ("zext", "sext", "trunc", "bitcast"):
         return expr_key(fn, i["a"], depth + 1, copyprop)
@@ -285,6 +285,8 @@ def expr_key(fn, o, depth=0, copyprop=False):
         return ("gep", expr_key(fn, i["base"], depth + 1, copyprop), i["off"], tuple((x["scale"], expr_key(fn, x["v"], depth + 1, copyprop)) for x in i["idx"]))
     if i.op in ("add", "sub", "mul", "and", "or", "xor", "shl", "lshr", "ashr", "sdiv", "udiv", "srem", "urem"):
         return (i.op, expr_key(fn, i["a"], depth + 1, copyprop), expr_key(fn, i["b"], depth + 1, copyprop))
+    if i.op == "icmp":
+        return ("icmp", i["pred"], expr_key(fn, i["a"], depth + 1, copyprop), expr_key(fn, i["b"], depth + 1, copyprop))
     if i.op == "call":
         return ("call", i.id)
     return ("?", i.id)
